@@ -65,10 +65,10 @@ PROPS = {
             "Decides two structural necessary conditions of the byte-store behaviour: (R-CACHE) the start-address cache that "
             "MemoryZone.locate() bisects is refreshed after every edit of a zone's object list on every path to a normal exit, "
             "in memory.py and in every external editor found in the tree (raw.py, vm/dwarf.py); (R-XFER) the restruct / copy / "
-            "merge / mergeparts loops transfer every object (no path through a loop body drops the element). "
+            "merge / mergeparts loops transfer every object (no path through a loop body drops the element); (R-ENDTAG) every datadiv/mo construction and byte slicing in memory.py tags bytes with the endianness of the object they were cut from (or with the caller's argument for the caller's data). "
             "Does NOT decide the overlap arithmetic of addtomap/setpart/getpart or endianness slicing (byte-for-byte equality)."
         ),
-        rules=[(R_c08.r_cache, Q), (R_c08.r_xfer_c08, Q)],
+        rules=[(R_c08.r_cache, Q), (R_c08.r_xfer_c08, Q), (R_c08.r_endtag, Q)],
         level_text="partial: must-pass-through on the CFG of every function that edits a zone map (8 functions, 13 edit sites) and path enumeration over 5 transfer loops; covers all paths including the rarely taken ones (empty map, j==i, TypeError merge fallback) that the 4 memory tests do not reach",
         level_note="Trusted: refresher summaries are one-level and limited to MemoryZone/MemoryMap/mapper (restruct & co); the emptiness early-return idiom of restruct is accepted; exception exits are not required to refresh; receivers of `_map` outside MemoryZone are identified by attribute name.",
         technique="must-pass-through (post-dominance) on statement CFGs + path enumeration of transfer loops",
